@@ -156,7 +156,7 @@ def meekCount (o : MeekOpts) (iterFuel : Nat) (s0 : St α) : Option (St α) :=
   let s5 : St α := s4.ballotsEq.foldl (fun (acc : St α) (b : BallotEq α) =>
               match b.rank.head? with
               | some grp => grp.foldl (fun (acc2 : St α) (cid : Nat) =>
-                    acc2.addVote A cid (A.mulV (A.fdivV A.one (A.ofInt grp.length)) (A.ofInt b.mult))) acc
+                    acc2.addVote A cid (A.mulV (A.divV A.one (A.ofInt grp.length)) (A.ofInt b.mult))) acc
               | none => acc) s4
   let s6 := s5.logAct A "begin" "Begin Count" []
   match loopN (fun s => !meekCountComplete s) (meekBody A o omega iterFuel) (2 * s0.cands.length + 3) s6 with
